@@ -88,8 +88,10 @@ def interval(e, env, lens):
         cv = _const_value(p.split("::")[-1])
         if isinstance(cv, int):
             return (cv, cv)
-        if p.split("::")[-1] == "BITS":
-            return (64, 64) if p.split("::")[-2:-1] in (["u64"], ["usize"]) else (32, 32)
+        if p.split("::")[-1] == "BITS" and len(p.split("::")) >= 2:
+            w_ = {"u8": 8, "u16": 16, "u32": 32, "Word": 32, "u64": 64, "usize": 64, "i8": 8, "i16": 16, "i32": 32, "i64": 64}.get(p.split("::")[-2])
+            if w_:
+                return (w_, w_)
     if e[0] == "mcall" and e[2] == "len" and not e[3]:
         return _iter_len(e[1], lens)
     if e[0] == "call" and len(e[2]) == 1 and (path_of(e[1]) or "").split("::")[-1] == "from":
